@@ -355,6 +355,22 @@ def run_export(case, out):
     exp = {"total": total, "R": R0, "tomo": a[:, IX["tomo_id"]].tolist(), "cls": a[:, IX["class"]].tolist(), "subnum": ids.tolist(),
            "subset": [1 if int(i) % 2 == 1 else 2 for i in ids]}
     check_import_table(out, bdf, "roundtrip", exp, tolp, tolr)
+    if path != "memory" and case["back"] == "relion2emmotl" and not out.violations:
+        # the converter's update_coordinates switch and output file: same complete positions with the integer part of the
+        # shift moved into x,y,z, every other field as without the switch, and the file holds the returned list
+        ok, b2 = call(out, "relion2emmotl(update_coordinates, output)", lambda: cryomotl.relion2emmotl(star, output_motl_path="back.em", relion_version=bv, pixel_size=px, binning=1.0, update_coordinates=True))
+        if ok and out.check(len(b2.df) == len(bdf), "roundtrip_updated:row_count", f"{len(b2.df)}"):
+            out.label("relion2emmotl_update_coordinates")
+            X = b2.df[["x", "y", "z"]].to_numpy(dtype=float)
+            S = b2.df[["shift_x", "shift_y", "shift_z"]].to_numpy(dtype=float)
+            P0 = bdf[["x", "y", "z"]].to_numpy(dtype=float) + bdf[["shift_x", "shift_y", "shift_z"]].to_numpy(dtype=float)
+            out.check(bool(np.all(X == np.round(X))), "roundtrip_updated:xyz_not_integral", "")
+            out.check(bool(np.all(np.abs(S) <= 0.5 + 1e-9 * np.maximum(1.0, np.abs(P0)))), "roundtrip_updated:shift_exceeds_half", lambda: f"{np.abs(S).max()!r}")
+            out.check(bool(np.all(np.abs(X + S - P0) <= 1e-9 * np.maximum(1.0, np.abs(P0)))), "roundtrip_updated:complete_position_moved", lambda: f"{np.abs(X + S - P0).max()!r}")
+            rest = [c_ for c_ in oracle.MOTL_COLUMNS if c_ not in ("x", "y", "z", "shift_x", "shift_y", "shift_z")]
+            out.check(np.array_equal(b2.df[rest].to_numpy(dtype=float), bdf[rest].to_numpy(dtype=float), equal_nan=True), "roundtrip_updated:other_field_changed", "")
+            bad = oracle.em_motl_mismatch("back.em", b2.df)
+            out.check(bad is None, f"roundtrip_updated:output_em_file_{bad}", "")
 
 
 def run_import(case, out):
